@@ -10,7 +10,7 @@ def parseVals (toks : List String) : Array BV4 := (toks.map BV4.ofString).toArra
 
 def resetCase (s : St) (id mode : String) : St :=
   { s with caseId := id, mode := mode, vals := #[], net := #[], netTy := #[], netName := #[], xo := #[], env := #[], stim := "",
-           cycle := 0, ctEval := none, runIsAbs := true, absSeqNv := #[], absSeqXv := #[],
+           cycle := 0, ctEval := none, xvHist := #[], runIsAbs := true, absSeqNv := #[], absSeqXv := #[],
            implNv := #[], absNv := #[], absXv := #[], haveAbs := false, unsafeReason := "", litStr := "", cases := s.cases + 1 }
 
 /-- `v <k> <op> a<i>… <num>… [str] -> <t> <w> <p>` | `… -> e` -/
@@ -115,8 +115,32 @@ def step (s : St) (line : String) : St :=
   | ["cteval", k] => { s with ctEval := if k == "done" then none else some k.toNat! }
   | ["pv", k, bits] => { s with env := s.env.setIfInBounds k.toNat! (BV4.ofString bits) }
   | "nv" :: rest => { s with implNv := parseVals rest }
+  | ["post"] => { s with postRuns := s.postRuns + 1 }
+  | "posterr" :: rest =>
+    let ops := ",".intercalate ((s.vals.toList.filter fun r => r.op != "pin" ∧ r.op != "lit").map fun r => opBase r.op)
+    s.propfail s!"op=dag class=post-processing-throws what=[{(" ".intercalate rest).take 160}] ops=[{ops}]: design.postprocess() (or the simulation of its result) threw on a design the frontend built and the simulator evaluated"
+  | "pxv" :: k :: rest => Id.run do
+    -- the post-processed design on stimulus k: every tapped expression must still evaluate to what the design as constructed
+    -- evaluated to (which was compared with the model and the definition above): no defined bit may differ, and a fully
+    -- defined value must be reproduced exactly
+    let pre := s.xvHist.getD k.toNat! #[]
+    let mut s := s
+    let agrees (j : Nat) : Bool :=
+      let c := rest.getD j "?"
+      c == "?" || (let pv := BV4.ofString c; let xv := pre.getD j []
+                   BV4.compatB xv pv && (!xv.allDef || xv == pv))
+    for j in [0:s.vals.size] do
+      let c := rest.getD j "?"
+      if c == "?" then continue
+      s := { s with postValues := s.postValues + 1 }
+      let r := s.vals[j]!
+      if !agrees j ∧ r.args.all agrees then
+        let a := argsOf s pre r
+        s := s.propfail s!"stim={k} val={j} op={opBase r.op} class=post-processed/{shapeClass r.op a r.params} full={r.op} params={r.params} args=[{showArgs a}] as-constructed={BV4.toString (pre.getD j [])} post-processed={c}: the design evaluates differently after design.postprocess()"
+    return s
   | "xv" :: rest =>
     let xv := parseVals rest
+    let s := { s with xvHist := s.xvHist.push xv }
     let s := checkNodes s s.implNv
     let s := checkOps s xv (!s.c08)
     if s.mode == "seq" then
@@ -232,7 +256,7 @@ def run (c08 : Bool) : IO Unit := do
   let s ← loop (← IO.getStdin) { c08 := c08 }
   IO.println (s!"SUMMARY \{\"cases\":{s.cases},\"ops\":{s.nodeEvals + s.feEvals},\"diffs\":{s.diffs},\"propfails\":{s.propfails}," ++
     s!"\"operator_instances\":{s.ops},\"node_evals\":{s.nodeEvals},\"fe_evals\":{s.feEvals},\"spec_checks\":{s.specChecks},\"xsound_checks\":{s.xsoundChecks}," ++
-    s!"\"stimuli\":{s.stims},\"error_cases\":{s.errCases},\"unsafe_cases\":{s.unsafeCases},\"crash_cases\":{s.crashCases}," ++
+    s!"\"stimuli\":{s.stims},\"error_cases\":{s.errCases},\"unsafe_cases\":{s.unsafeCases},\"crash_cases\":{s.crashCases},\"post_processed_runs\":{s.postRuns},\"post_processed_values\":{s.postValues}," ++
     s!"\"conc_pairs\":{s.concPairs},\"compat_bits\":{s.compatBits},\"non_monotone\":{s.nonMono},\"propagated_contradictions\":{s.propagated}," ++
     s!"\"hist\":{histJson s.opHist},\"node_kinds\":{histJson s.kindHist},\"widths\":{histJson s.widthHist},\"definedness\":{histJson s.defHist},\"non_monotone_where\":{histJson s.nonMonoHist},\"non_monotone_sources\":{histJson s.nonMonoSrc}}")
 
